@@ -37,6 +37,16 @@ type callRec struct {
 	release  int32    // set by the next call's node once it is executing (atomic)
 	unparked int32    // abandoned tasks of this call that have been released and are about to return (atomic)
 	prev     *callRec // the faulted call made just before this one
+	// cancellation of the call's OWN context by one of its nodes (optCancel)
+	cancelKey string
+	cancelFn  context.CancelFunc
+}
+
+// maybeCancel: the node [key] of a call made with a cancellation point cancels that call's context.
+func maybeCancel(ctx context.Context, key string) {
+	if rc := recOf(ctx); rc != nil && rc.cancelFn != nil && rc.cancelKey == key {
+		rc.cancelFn()
+	}
 }
 
 type event struct {
